@@ -1,5 +1,48 @@
 package main
 
+import (
+	"go/ast"
+	"strings"
+)
+
+// stmtSrcsBetween: the source text (one line each, if-statements as "if COND { BODY }") of the statements of the innermost block of fn
+// that contains a statement starting with `from`, from that statement up to (not including) the first later statement containing `upTo`.
+func stmtSrcsBetween(fc *fileCache, rel, fn, from, upTo string) []string {
+	fd := fc.fn(rel, fn)
+	if fd == nil {
+		return nil
+	}
+	var res []string
+	ast.Inspect(fd.Body, func(nd ast.Node) bool {
+		blk, ok := nd.(*ast.BlockStmt)
+		if !ok || res != nil {
+			return true
+		}
+		start := -1
+		for i, st := range blk.List {
+			if strings.HasPrefix(src(fc.fset, st), from) {
+				start = i
+				break
+			}
+		}
+		if start < 0 {
+			return true
+		}
+		for _, st := range blk.List[start:] {
+			t := src(fc.fset, st)
+			if strings.Contains(t, upTo) {
+				break
+			}
+			if _, isComment := st.(*ast.EmptyStmt); isComment {
+				continue
+			}
+			res = append(res, t)
+		}
+		return false
+	})
+	return res
+}
+
 // genShield: the guards and amounts of x/shield (and the claim admission in x/gov) that the Lean model of the module mirrors.
 // Shentu/Props/ShieldTie.lean proves that each regenerated definition equals the expression used by the model.
 func genShield(fc *fileCache) {
@@ -59,6 +102,42 @@ func genShield(fc *fileCache) {
 		Params: "(payoutTime now : Int)", Type: "Bool", Default: "false", Vars: rv})
 	emitSite(fc, g, Site{Name: "unstakeTooMuch", File: sp, Func: "UnstakeFromShield", Loc: ifCond("WithdrawRequested", 0),
 		Params: "(requested amount staked : Int)", Type: "Bool", Default: "false", Vars: rv})
+
+	// CreateReimbursement: the proportional split of an approved claim's loss over the providers — the two truncated shares, their caps by
+	// what is still outstanding, the two "+1" corrections with their spare-collateral guards, and the final test that panics when the
+	// payments do not add up.  A guard that is hoisted, reordered or rewritten changes the regenerated definition or is no longer
+	// recognised (its leaves must be the site's parameters), and ShieldTie.tie_split_* / all_sites_found stop checking.
+	rbv := map[string]Var{"provider.Collateral": iv("collateral"), "purchaseRatio": dv("purchaseRatio"), "payoutRatio": dv("payoutRatio"),
+		"purchased": iv("purchased"), "payout": iv("payout"), "totalPurchased": iv("totalPurchased"), "totalPayout": iv("totalPayout"),
+		"provider.Withdrawing": iv("withdrawing")}
+	emitSite(fc, g, Site{Name: "splitPurchased", File: pp, Func: "CreateReimbursement", Loc: assignTo("purchased", 0),
+		Params: "(collateral : Int) (purchaseRatio : Dec)", Type: "Int", Default: "0", Vars: rbv})
+	emitSite(fc, g, Site{Name: "splitPayout", File: pp, Func: "CreateReimbursement", Loc: assignTo("payout", 0),
+		Params: "(collateral : Int) (payoutRatio : Dec)", Type: "Int", Default: "0", Vars: rbv})
+	emitSite(fc, g, Site{Name: "splitPurchasedCapped", File: pp, Func: "CreateReimbursement", Loc: ifCond("purchased.GT(totalPurchased)", 0),
+		Params: "(purchased totalPurchased : Int)", Type: "Bool", Default: "false", Vars: rbv})
+	emitSite(fc, g, Site{Name: "splitPayoutCapped", File: pp, Func: "CreateReimbursement", Loc: ifCond("payout.GT(totalPayout)", 0),
+		Params: "(payout totalPayout : Int)", Type: "Bool", Default: "false", Vars: rbv})
+	emitSite(fc, g, Site{Name: "splitPurchasedPlusOne", File: pp, Func: "CreateReimbursement", Loc: ifCond("purchased.LT(totalPurchased)", 0),
+		Params: "(purchased totalPurchased collateral payout : Int)", Type: "Bool", Default: "false", Vars: rbv})
+	emitSite(fc, g, Site{Name: "splitPayoutPlusOne", File: pp, Func: "CreateReimbursement", Loc: ifCond("payout.LT(totalPayout)", 0),
+		Params: "(payout totalPayout collateral purchased : Int)", Type: "Bool", Default: "false", Vars: rbv})
+	emitSite(fc, g, Site{Name: "splitDone", File: pp, Func: "CreateReimbursement", Loc: ifCond("totalPayout.IsPositive()", 0),
+		Params: "(totalPayout : Int)", Type: "Bool", Default: "false", Vars: rbv})
+	emitSite(fc, g, Site{Name: "splitShort", File: pp, Func: "CreateReimbursement", Loc: ifCond("totalPayout.IsPositive()", 1),
+		Params: "(totalPayout : Int)", Type: "Bool", Default: "false", Vars: rbv})
+	// the order of the statements between the two shares and the keeper calls, as source text: the "+1" of the purchased share is decided
+	// before the "+1" of the payout and both read the CURRENT values of purchased and payout
+	g.fact("splitSteps", "List String", strList(stmtSrcsBetween(fc, pp, "CreateReimbursement", "purchased := ", "k.UpdateProviderCollateralForPayout")), "x/shield/keeper/proposal.go CreateReimbursement: the statements from `purchased := …` up to the call of UpdateProviderCollateralForPayout")
+	// UpdateProviderCollateralForPayout: the three-way split of a payment between free collateral and queued withdrawals
+	emitSite(fc, g, Site{Name: "payoutFitsFree", File: pp, Func: "UpdateProviderCollateralForPayout", Loc: ifCond("GTE(purchased.Add(payout))", 0),
+		Params: "(collateral withdrawing purchased payout : Int)", Type: "Bool", Default: "false", Vars: rbv})
+	emitSite(fc, g, Site{Name: "purchasedFitsFree", File: pp, Func: "UpdateProviderCollateralForPayout", Loc: ifCond("GTE(purchased)", 0),
+		Params: "(collateral withdrawing purchased : Int)", Type: "Bool", Default: "false", Vars: rbv})
+	emitSite(fc, g, Site{Name: "payoutFromFreePartly", File: pp, Func: "UpdateProviderCollateralForPayout", Loc: assignTo("payoutFromCollateral", 2),
+		Params: "(collateral withdrawing purchased : Int)", Type: "Int", Default: "0", Vars: rbv})
+	emitSite(fc, g, Site{Name: "uncoveredPurchase", File: pp, Func: "UpdateProviderCollateralForPayout", Loc: assignTo("uncoveredPurchase", 1),
+		Params: "(collateral withdrawing purchased : Int)", Type: "Int", Default: "0", Vars: rbv})
 
 	clv := map[string]Var{"pool.Shield": iv("poolShield"), "pool.ShieldLimit": iv("limit")}
 	emitSite(fc, g, Site{Name: "poolClosable", File: po, Func: "ClosePools", Loc: ifCond("ShieldLimit", 0),
